@@ -476,7 +476,7 @@ pub fn gen_cases(seed: u64, tier: &str, out: &mut Out) -> Vec<(Case, &'static st
     let mut cs: Vec<(Case, &'static str)> = vec![];
 
     // ---- matcher: exhaustive in Rust, sample + every kept disagreement through the Coq model
-    let (pl, tl) = if thorough { (5, 7) } else { (4, 5) };
+    let (pl, tl) = if thorough { (5, 6) } else { (4, 5) };
     let (total, dis, kept, samp) = glob_exhaustive(pl, tl, seed, 400, if thorough { 12000 } else { 4000 });
     out.add("glob_exhaustive_pairs", total);
     out.add("glob_exhaustive_pattern_maxlen", pl as u64);
